@@ -531,6 +531,13 @@ pub fn fuzz_one(prop_id: &str, target: &Target, data: &[u8]) {
 
 /// `main` of every check binary.
 pub fn main(prop: Property) -> ! {
+    // keep freed memory in the process: returning it to the system and mapping it again costs
+    // system calls that serialise the shard threads (address-space lock, TLB shootdowns)
+    unsafe {
+        libc::mallopt(libc::M_TRIM_THRESHOLD, 1 << 30);
+        libc::mallopt(libc::M_TOP_PAD, 16 << 20);
+        libc::mallopt(libc::M_MMAP_THRESHOLD, 8 << 20);
+    }
     let opts = parse_opts();
     install_panic_hook();
     let root = verif_root();
